@@ -162,9 +162,10 @@ class RemoteCard:
 
     KINDS = ("T1T", "T2T", "T4A", "DEPA", "T4B", "T3T212", "T3T424", "DEPF212", "DEPF424")
 
-    def __init__(self, kind):
+    def __init__(self, kind, sel_res=None):
         assert kind in self.KINDS, kind
         self.kind = kind
+        self.mute = 0               # number of following frames the card does not answer (it sees them)
         self.brty = {"T4B": "106B", "T3T212": "212F", "T3T424": "424F", "DEPF212": "212F",
                      "DEPF424": "424F"}.get(kind, "106A")
         self.uid = {"T1T": bytes.fromhex("b2565400"), "T2T": bytes.fromhex("04a1b2c3d4e5f6"),
@@ -172,6 +173,8 @@ class RemoteCard:
         self.sens_res = {"T1T": bytes.fromhex("000c"), "T2T": bytes.fromhex("4400"),
                          "T4A": bytes.fromhex("0400"), "DEPA": bytes.fromhex("0400")}.get(kind)
         self.sel_res = {"T2T": 0x00, "T4A": 0x20, "DEPA": 0x40}.get(kind)
+        if sel_res is not None and self.sel_res is not None:
+            self.sel_res = sel_res & 0xFF   # a Type 2 Tag platform (command set of kind) that answers another SEL_RES
         self.idm = bytes.fromhex("01fe0a0b0c0d0e0f") if kind.startswith("DEPF") else bytes.fromhex("02fe112233445566")
         self.pmm = bytes.fromhex("00f0000002060300") if not kind.startswith("DEPF") else bytes(8)
         self.sys = bytes.fromhex("12fc") if not kind.startswith("DEPF") else bytes.fromhex("ffff")
@@ -205,9 +208,23 @@ class RemoteCard:
             return [(b"\x88" + u[0:3], 0x04), (u[3:7], self.sel_res)]
         return [(b"\x88" + u[0:3], 0x04), (b"\x88" + u[3:6], 0x04), (u[6:10], self.sel_res)]
 
+    def needs_crc(self, brty, frame):
+        """does this frame carry a CRC on the air?  Type A short frames (REQA/WUPA) and the anticollision frames
+        (SEL NVB < 70h) do not; everything else does"""
+        frame = bytes(frame)
+        if brty == "106A" and frame:
+            if frame in (b"\x26", b"\x52"):
+                return False
+            if frame[0] in (0x93, 0x95, 0x97) and len(frame) >= 2 and frame[1] < 0x70:
+                return False
+        return True
+
     def receive(self, brty, frame):
         frame = bytes(frame)
         if brty != self.brty or not frame:
+            return None
+        if self.mute > 0:
+            self.mute -= 1
             return None
         if self.brty == "106A":
             return self._rx_a(frame)
@@ -307,6 +324,7 @@ class RemoteInitiator:
         self.seq = 0
         self.sent = []             # what the chip was asked to transmit
         self.idm = None
+        self.mute = 0              # number of following receive windows in which the reader sends nothing
 
     def field_off(self):
         pass
@@ -340,6 +358,9 @@ class RemoteInitiator:
                 del self.sent[:32]
         if params["recv_timeout"] == 0:
             return TG_COMM_TYPE[self.brty], 3, 0, b""           # send only
+        if self.mute > 0:
+            self.mute -= 1
+            return TG_COMM_TYPE[self.brty], 3, STATUS_BITS["RECEIVE_TIMEOUT_ERROR"], b""
         step, self.step = self.step, self.step + 1
         k = self.kind
         if k == "TT2":
@@ -401,6 +422,13 @@ class Port100Sim:
         self.keep_frames = False
         self.frames = []
         self.fault_applied = 0
+        self.applied = []                     # (k, action) of the scripted faults delivered since mark()
+        self.delivered = []                   # the transfers queued in answer to the last host command
+        self.model_add_crc = True             # a card ignores a command that needs a CRC and was sent without
+        self.no_crc_tx = 0                    # frames the chip transmitted without CRC although the card needs one
+        self.rx_count = 0                     # frames received from the remote side (monotonic)
+        self.persistent_pipe = False          # True: transfers the host did not read stay in the bulk-in pipe when the
+                                              # next command is written (default: every command starts with an empty pipe)
 
     manufacturer_name = "SONY"
     product_name = "RC-S380/S (simulated)"
@@ -410,7 +438,9 @@ class Port100Sim:
         self.mark_n = self.n
         self.script = dict(script or {})
         self.cmdlog = []
-        self.queue.clear()
+        self.applied = []
+        if not self.persistent_pipe:
+            self.queue.clear()
 
     def commands_since_mark(self):
         return self.n - self.mark_n
@@ -465,23 +495,29 @@ class Port100Sim:
         if len(self.cmdlog) < 256:
             self.cmdlog.append((code, payload))
         self._tick(0.0005)
-        self.queue.clear()
+        if not self.persistent_pipe:
+            self.queue.clear()
+        self.delivered = []
         if act is not None and act["kind"] == "link" and fault_phase(act["fault"]) == "write":
             self.fault_applied += 1
+            self.applied.append((k, act))
             self.last_response = None
             raise self._ioerror(act["fault"].split("@")[0])
         if act is not None and act["kind"] == "link" and fault_phase(act["fault"]) == "ack":
             # the command got lost on the way: no ACK, no execution, no response
             self.fault_applied += 1
+            self.applied.append((k, act))
             self.last_response = None
             if act["fault"] != "io-timeout@ack":
                 self.queue.append(self._ioerror(act["fault"].split("@")[0]))
             return
         if act is not None and act["kind"] == "rf_status" and code in RF_COMMANDS:
             self.fault_applied += 1
+            self.applied.append((k, act))
             rsp = self._rf_status_response(code, payload, act["word"])
         elif act is not None and act["kind"] == "status_byte" and code not in RF_COMMANDS:
             self.fault_applied += 1
+            self.applied.append((k, act))
             rsp = bytes([act["value"] & 0xFF])
         else:
             rsp = self.execute(code, payload)
@@ -489,9 +525,11 @@ class Port100Sim:
         self.last_response = good
         if act is not None and act["kind"] == "link":
             self.fault_applied += 1
-            self.queue.extend(self._link_fault(act, code, rsp, good))
+            self.applied.append((k, act))
+            self.delivered = list(self._link_fault(act, code, rsp, good))
         else:
-            self.queue.extend((ACK, good))
+            self.delivered = [ACK, good]
+        self.queue.extend(self.delivered)
 
     # ---- faults ----------------------------------------------------------------------------------------
     def _rf_status_response(self, code, payload, word):
@@ -622,15 +660,31 @@ class Port100Sim:
         self.rf_log.append(("tx", brty, bytes(data)))
         rsp = None
         if self.card is not None and brty is not None and self.rf_on:
-            rsp = self.card.receive(brty, data)
+            data = bytes(data)
+            deliver = True
+            if self.model_add_crc and not self.in_proto.get(1, 1) and self.card.needs_crc(brty, data):
+                # InSetProtocol add_crc = 0: the chip transmits the host's octets as they are.  A card accepts them
+                # only if the host supplied a correct CRC itself; otherwise the frame is a transmission error for
+                # the card and it stays silent.
+                crc = crc_b if brty.endswith("B") or self.card.kind == "T1T" else crc_a
+                if len(data) > 2 and crc(data[:-2]) == data[-2:]:
+                    data = data[:-2]
+                else:
+                    deliver = False
+                    self.no_crc_tx += 1
+            if deliver:
+                rsp = self.card.receive(brty, data)
         if rsp is None:
             self._tick(timeout * 1e-4)
             return le32(STATUS_BITS["RECEIVE_TIMEOUT_ERROR"])
         payload, has_crc = rsp
         payload = bytes(payload)
         self.rf_log.append(("rx", brty, payload))
+        self.rx_count += 1
         check_crc = self.in_proto.get(2, 1)
         if not has_crc:
+            if self.rf_mangle is not None and getattr(self.rf_mangle, "no_crc_frames", False):
+                payload = bytes(self.rf_mangle(payload))
             if check_crc:
                 return le32(STATUS_BITS["CRC_ERROR"])     # e.g. the 4-bit ACK/NAK of a Type 2 Tag
             return le32(0) + b"\x08" + payload
@@ -661,6 +715,7 @@ class Port100Sim:
             self._tick(recv_to * 1e-3)
         if data:
             self.rf_log.append(("rx", ini.brty, bytes(data)))
+            self.rx_count += 1
         return bytes([comm, 0, activated]) + le32(status) + bytes(data)
 
 
